@@ -39,11 +39,32 @@ var c10alpha = []Op{
 	{K: "corrupt-sigs", S: "empty"},
 }
 
+// c10core is the smaller alphabet used for the longest enumerated histories.
+var c10core = []Op{
+	{K: "calc"},
+	{K: "edit", S: "qty", S2: "3", I: 0},
+	{K: "sign", I: 0},
+	{K: "unsign"},
+	{K: "stamp", S: "sim-prv-a", S2: "v1"},
+	{K: "validate"},
+	{K: "verify", S: "key0"},
+	{K: "crash"},
+}
+
+// enumeration plan: every sequence over the full alphabet up to fullLen, and
+// (thorough) every sequence over the core alphabet of the lengths above it up to 6.
 func c10enumLen(c *Ctx) int {
 	if c.Tier == "thorough" {
-		return 5
+		return 4
 	}
 	return 3
+}
+
+func c10coreLens(c *Ctx) []int {
+	if c.Tier == "thorough" {
+		return []int{5, 6}
+	}
+	return nil
 }
 
 const c10group = 64
@@ -55,11 +76,28 @@ func c10enumCount(c *Ctx) int64 {
 		p *= int64(len(c10alpha))
 		n += p
 	}
+	for _, l := range c10coreLens(c) {
+		p = 1
+		for i := 0; i < l; i++ {
+			p *= int64(len(c10core))
+		}
+		n += p
+	}
 	return n
 }
 
 func c10enumBases(c *Ctx) []string {
 	return []string{"examples/es/invoice-es-es", "examples/pt/invoice"}
+}
+
+func decodeHistory(alpha []Op, l int, i int64) []Op {
+	ops := make([]Op, l)
+	for j := l - 1; j >= 0; j-- {
+		ops[j] = alpha[i%int64(len(alpha))]
+		ops[j].ID = j + 1
+		i /= int64(len(alpha))
+	}
+	return ops
 }
 
 // c10history decodes the i-th enumerated history.
@@ -68,13 +106,17 @@ func c10history(c *Ctx, i int64) []Op {
 	for l := 1; l <= c10enumLen(c); l++ {
 		p *= int64(len(c10alpha))
 		if i < p {
-			ops := make([]Op, l)
-			for j := l - 1; j >= 0; j-- {
-				ops[j] = c10alpha[i%int64(len(c10alpha))]
-				ops[j].ID = j + 1
-				i /= int64(len(c10alpha))
-			}
-			return ops
+			return decodeHistory(c10alpha, l, i)
+		}
+		i -= p
+	}
+	for _, l := range c10coreLens(c) {
+		p = 1
+		for k := 0; k < l; k++ {
+			p *= int64(len(c10core))
+		}
+		if i < p {
+			return decodeHistory(c10core, l, i)
 		}
 		i -= p
 	}
@@ -86,7 +128,7 @@ func init() {
 		ID:    "C10",
 		Level: "exploration",
 		Rule: "histories of envelope operations (insert, calculate, content edits, sign with valid / public-only / empty keys, unsign, stamps, links, tags, meta, notes, identifier change, validate, verify, persist, crash-restart, lost write, re-encode, damaged signature list on disk) checked step by step against an executable reference model; " +
-			"check 'enum' enumerates every sequence over a 14-operation alphabet up to length 3 (quick) / 5 (thorough) on two base documents, check 'life' draws longer seeded histories over 12 base documents; a case is one history, distinct by its operation sequence and base document, non-trivial when it contains at least one state-changing operation followed by an observation",
+			"check 'enum' enumerates every sequence over a 14-operation alphabet up to length 3 (quick) / 4 (thorough), and in thorough every sequence of length 5 and 6 over an 8-operation core alphabet, on two base documents, check 'life' draws longer seeded histories over 12 base documents; a case is one history, distinct by its operation sequence and base document, non-trivial when it contains at least one state-changing operation followed by an observation",
 		Assumptions: []string{
 			"which documents are structurally valid is asked of the implementation on a fresh parse of the same bytes; the model predicts how that fact, the digest fact, the signature list and the header combine over a history",
 			"after a signing that fails before a signature is appended, both 'signatures unchanged' and 'unsigned' are accepted (the statement is silent)",
